@@ -119,6 +119,14 @@ func envInt(k string, d int) int {
 	return d
 }
 
+// TestSolo loads one c02 scenario in an otherwise pristine process and prints its digest.
+func TestSolo(t *testing.T) {
+	if os.Getenv("VERIF_SOLO_INDEX") == "" {
+		t.Skip()
+	}
+	fmt.Printf("SOLO %s\n", c02Solo(uint64(envInt("VERIF_SOLO_SEED", 1)), envInt("VERIF_SOLO_INDEX", 0)))
+}
+
 func TestWorker(t *testing.T) {
 	name := os.Getenv("VERIF_ENGINE")
 	if name == "" {
